@@ -3,6 +3,7 @@ import common
 import wire
 
 LEVEL = 'proof'
+TRUSTED_EXTRA = ['harness/pytrans.py: fail-closed translator hpfeeds/protocol.py -> coq/ProtoGen.v (regenerated on every run) and coq/PyPrim.v, its reading of the Python fragment used there (dynamic values, slices, struct.pack/unpack for !B and !iB, len of a str = code points, exceptions); the translated text is proved equal to the hand-written Wire.v in coq/ProtoGenEq.v, and the *_src_* theorems are about the translated text']
 ASSUMPTIONS = ['bytearray.extend / slicing / del behave as list append / firstn / skipn']
 
 
